@@ -37,7 +37,9 @@ LEVEL_NOTE = ('Trusted: mc/gf2.py. Not covered: sizes above the bound, user code
 RULE = ('A1: every (class, size, deformation) in the C01 domain; A2: every pair of non-identity Pauli supports on '
         'n=2 (225) and n=3 (3969 in thorough; quick: all 63 single stabilizers and a complete 63x63 sweep sharded '
         'over fewer coordinate shapes) for each coordinate shape; A3: one child interpreter per PYTHONHASHSEED. '
-        'distinct non-trivial = distinct configurations with at least one non-empty generator')
+        'distinct non-trivial = distinct configurations with at least one non-empty generator; A1 also on used '
+        'objects and in per-class sessions (several objects in one process); from_bsf additionally on sparse rows '
+        'with unsorted indices / explicit zeros as sparse arithmetic leaves them')
 ASSUMPTIONS = ['size family per class as fixed in DESIGN.md §3', 'GF(2)/BSF reference mc/gf2.py']
 BOUNDS = {'quick': {'max_n': 150, 'l_max_2d': 6, 'l_max_3d': 4, 'hash_seeds': 8, 'user_shapes': 3},
           'thorough': {'max_n': 1500, 'l_max_2d': 9, 'l_max_3d': 6, 'hash_seeds': 64, 'user_shapes': 6}}
